@@ -1,5 +1,6 @@
 # Copyright 2024, Battelle Energy Alliance, LLC All Rights Reserved.
 from abc import abstractmethod
+import copy
 import montepy
 from montepy.data_inputs.data_input import DataInputAbstract
 from montepy.input_parser import syntax_node
@@ -200,8 +201,38 @@ class CellModifierInput(DataInputAbstract):
         attr, _ = montepy.Cell._INPUTS_TO_PROPERTY[type(self)]
         for cell in self._problem.cells:
             input = getattr(cell, attr)
-            ret.append(input._tree_value)
+            ret.append(self._without_cell_comments(input, input._tree_value))
         return ret
+
+    @staticmethod
+    def _without_cell_comments(cell_input, node):
+        """
+        The value of a cell for an input of the data block, without the comments
+        that follow it on the cell's own input.
+
+        In a list of the data block a '$' comment or a comment line after one value
+        would turn the values after it into comment text.
+
+        :param cell_input: the object that holds the data of the cell.
+        :type cell_input: CellModifierInput
+        :param node: the node that holds the value.
+        :type node: ValueNode
+        :returns: the node itself, or, if it was read from the cell's input with a comment after it,
+            a copy of it that is followed by a single blank.
+        :rtype: ValueNode
+        """
+        padding = getattr(node, "padding", None)
+        if (
+            not cell_input.set_in_cell_block
+            or padding is None
+            or not any(padding.comments)
+        ):
+            return node
+        clean = copy.copy(node)
+        clean._nodes = [clean]
+        clean._formatter = dict(node._formatter)
+        clean.padding = syntax_node.PaddingNode(" ")
+        return clean
 
     @abstractmethod
     def _update_cell_values(self):
